@@ -65,7 +65,7 @@ static Tissue make_tissue(Rng& g, int max_cells, bool no_epi_pairs = false, bool
     else { t.family = "row_touching"; int n = g.range(2, max_cells); double x = 0; for (int k = 0; k < n; k++) { double r = g.uni(0.4, 0.7); x += r; add(blob(r, x, g.uni(-0.1, 0.1), g.uni(-0.1, 0.1)), rcls()); x += r + g.uni(-0.15, 0.2) * r; } }
     // position relative to the origin: far from / straddling / exact multiples of the voxel size
     double voxel = 3 * lmin + 2 * std::max(ca, cr); int om = g.range(0, 3); V3 off;
-    if (om == 1) off = V3(g.uni(-1, 1), g.uni(-1, 1), g.uni(-1, 1)) * g.logu(10, 1e4); else if (om == 2) off = V3(voxel * g.range(-50, 50), voxel * g.range(-50, 50), voxel * g.range(-50, 50)); else if (om == 3) off = V3(-0.5, 0.3, 0.1);
+    if (om == 1) off = V3(g.uni(-1, 1), g.uni(-1, 1), g.uni(-1, 1)) * (g.coin(0.5) ? g.logu(10, 1e4) : g.logu(1e4, 3e6)); else if (om == 2) off = V3(voxel * g.range(-50, 50), voxel * g.range(-50, 50), voxel * g.range(-50, 50)); else if (om == 3) off = V3(-0.5, 0.3, 0.1);
     t.offset = (double)off.norm();
     for (auto& m : t.meshes) gen::translate(m, (double)off.x, (double)off.y, (double)off.z);
     // a few nodes exactly on voxel boundaries of the grid anchored at the (unknown to us) tissue minimum: snap coordinates to multiples of voxel/2
@@ -104,12 +104,33 @@ static bool pregate_pair(const node& n, const face& f) {
 #endif
 }
 
+struct FI { V3 a, b, c, ctr; R rad; const face* f; };
+struct Brute { long within = 0, missing = 0, gated_out = 0; std::string msg; std::vector<std::vector<char>> reach; std::vector<std::vector<FI>> F; };
+// every cross-cell (node, face) pair closer than the largest cut-off (minus the grey zone) that passes the model's own pre-gates must be in P
+static Brute brute(const std::vector<cell_ptr>& A, const std::vector<std::vector<V3>>& X0, const std::unordered_set<PairKey, PairHash>& P, const Tissue& t, double cmax, R GZ) {
+    Brute b; long& within = b.within; long& missing = b.missing; long& gated_out = b.gated_out; std::string& miss_msg = b.msg; auto& reach = b.reach; auto& F = b.F;
+    reach.resize(A.size()); for (size_t k = 0; k < A.size(); k++) reach[k].assign(cell_tester::nodes(*A[k]).size(), 0);
+    F.resize(A.size());
+    for (size_t k = 0; k < A.size(); k++) for (const face& f : cell_tester::faces(*A[k])) if (f.is_used()) { FI x; x.a = X0[k][cell_tester::n1(f)]; x.b = X0[k][cell_tester::n2(f)]; x.c = X0[k][cell_tester::n3(f)]; x.ctr = (x.a + x.b + x.c) / 3; x.rad = std::max({(x.a - x.ctr).norm(), (x.b - x.ctr).norm(), (x.c - x.ctr).norm()}); x.f = &f; F[k].push_back(x); }
+    for (size_t k1 = 0; k1 < A.size(); k1++) { const auto& nl = cell_tester::nodes(*A[k1]);
+        for (size_t ni = 0; ni < nl.size(); ni++) { const node& n = nl[ni]; if (!n.is_used()) continue; const V3& p = X0[k1][ni]; bool g1 = pregate_node(*A[k1], n);
+            for (size_t k2 = 0; k2 < A.size(); k2++) { if (k2 == k1) continue;
+                for (const FI& x : F[k2]) { if ((p - x.ctr).norm() > x.rad + 2 * cmax) continue; V3 q; R d2 = orc::closest_on_triangle(p, x.a, x.b, x.c, q); R d = std::sqrt(d2);
+                    if (d < cmax * (1 + GZ)) { reach[k1][ni] = 1; reach[k2][cell_tester::n1(*x.f)] = 1; reach[k2][cell_tester::n2(*x.f)] = 1; reach[k2][cell_tester::n3(*x.f)] = 1; }
+                    if (!(d < cmax * (1 - GZ))) continue; within++;
+                    if (!g1 || !pregate_pair(n, *x.f)) { gated_out++; continue; }
+                    if (!P.count({(uint32_t)k1, (uint32_t)ni, (uint32_t)k2, x.f->get_local_id()})) { missing++; if (miss_msg.empty()) { miss_msg = "node " + std::to_string(ni) + " of cell " + std::to_string(k1) + " (class " + std::to_string(t.cls[k1]) + ") is " + std::to_string((double)(d / cmax)) + " cut-offs from face " + std::to_string(x.f->get_local_id()) + " of cell " + std::to_string(k2) + " but the pair was never presented to the contact rules"; } } } } } }
+    return b;
+}
+
 static std::string tissue_case(const Args& a, long i) {
     Rng g(a.seed, (uint64_t)i, 0x06); Case c(i);
     Tissue t; std::vector<cell_ptr> A;
     const bool no_epi = a.geti("no_epi_pairs", 0) != 0, dense = a.geti("dense", 0) != 0; const int repeat = (int)a.geti("repeat", 1);
     try { t = make_tissue(g, (int)a.geti("max_cells", 8), no_epi, dense); A = build(t); } catch (const std::exception& e) { c.v = "skip"; c.msg = std::string("generator mesh rejected: ") + e.what(); return c.line(); }
     const double cmax = std::max(t.P.contact_cutoff_adhesion_, t.P.contact_cutoff_repulsion_);
+    // grey zone around the cut-offs: 1e-9 relative plus the rounding of a distance formed from coordinates of magnitude |offset| (far tissues)
+    const R GZ = 1e-9L + 256 * 2.220446e-16L * (R)(t.offset + 10.0) / (R)std::min({t.P.contact_cutoff_adhesion_, t.P.contact_cutoff_repulsion_});
     // positions before the run (model 1/2 snap coupled pairs together afterwards)
     std::vector<std::vector<V3>> X0(A.size()); for (size_t k = 0; k < A.size(); k++) for (const node& n : cell_tester::nodes(*A[k])) X0[k].push_back(vpos(n));
     for (auto& v : g_pairs) v.clear(); verif::get().contact_pair = on_pair;
@@ -118,18 +139,8 @@ static std::string tissue_case(const Args& a, long i) {
     std::unordered_set<PairKey, PairHash> P; size_t presented = 0;
     for (auto& v : g_pairs) for (auto& p : v) { const cell* c1 = (const cell*)p[0]; const cell* c2 = (const cell*)p[2]; const node* n = (const node*)p[1]; const face* f = (const face*)p[3]; P.insert({cidx[c1], n->get_local_id(), cidx[c2], f->get_local_id()}); presented++; }
     // ---- brute force over all cross-cell node/face pairs (bounding-sphere prefilter at 2 cut-offs, independent of any grid) -------------
-    long within = 0, missing = 0, gated_out = 0; std::vector<std::vector<char>> reach(A.size()); for (size_t k = 0; k < A.size(); k++) reach[k].assign(cell_tester::nodes(*A[k]).size(), 0);
-    struct FI { V3 a, b, c, ctr; R rad; const face* f; }; std::vector<std::vector<FI>> F(A.size());
-    for (size_t k = 0; k < A.size(); k++) for (const face& f : cell_tester::faces(*A[k])) if (f.is_used()) { FI x; x.a = X0[k][cell_tester::n1(f)]; x.b = X0[k][cell_tester::n2(f)]; x.c = X0[k][cell_tester::n3(f)]; x.ctr = (x.a + x.b + x.c) / 3; x.rad = std::max({(x.a - x.ctr).norm(), (x.b - x.ctr).norm(), (x.c - x.ctr).norm()}); x.f = &f; F[k].push_back(x); }
-    std::string miss_msg;
-    for (size_t k1 = 0; k1 < A.size(); k1++) { const auto& nl = cell_tester::nodes(*A[k1]);
-        for (size_t ni = 0; ni < nl.size(); ni++) { const node& n = nl[ni]; if (!n.is_used()) continue; const V3& p = X0[k1][ni]; bool g1 = pregate_node(*A[k1], n);
-            for (size_t k2 = 0; k2 < A.size(); k2++) { if (k2 == k1) continue;
-                for (const FI& x : F[k2]) { if ((p - x.ctr).norm() > x.rad + 2 * cmax) continue; V3 q; R d2 = orc::closest_on_triangle(p, x.a, x.b, x.c, q); R d = std::sqrt(d2);
-                    if (d < cmax * (1 + 1e-9L)) { reach[k1][ni] = 1; reach[k2][cell_tester::n1(*x.f)] = 1; reach[k2][cell_tester::n2(*x.f)] = 1; reach[k2][cell_tester::n3(*x.f)] = 1; }
-                    if (!(d < cmax * (1 - 1e-9L))) continue; within++;
-                    if (!g1 || !pregate_pair(n, *x.f)) { gated_out++; continue; }
-                    if (!P.count({(uint32_t)k1, (uint32_t)ni, (uint32_t)k2, x.f->get_local_id()})) { missing++; if (miss_msg.empty()) { miss_msg = "node " + std::to_string(ni) + " of cell " + std::to_string(k1) + " (class " + std::to_string(t.cls[k1]) + ") is " + std::to_string((double)(d / cmax)) + " cut-offs from face " + std::to_string(x.f->get_local_id()) + " of cell " + std::to_string(k2) + " but the pair was never presented to the contact rules"; } } } } } }
+    Brute br = brute(A, X0, P, t, cmax, GZ);
+    long within = br.within, missing = br.missing, gated_out = br.gated_out; std::vector<std::vector<char>>& reach = br.reach; std::vector<std::vector<FI>>& F = br.F; std::string& miss_msg = br.msg;
     if (missing) c.viol("c06.pair_within_cutoff_not_presented", miss_msg + " (" + std::to_string(missing) + " such pairs)");
     // ---- C07 at tissue level -----------------------------------------------------------------------------------------------------------------
     V3 sum; R sabs = 0, fmax = 0; long forced = 0;
@@ -148,7 +159,7 @@ static std::string tissue_case(const Args& a, long i) {
             for (auto& cp : cps) { couplings++;
                 if (cp.first == k) { c.viol("c07.coupling_within_one_cell", "a node is coupled to a node of its own cell"); continue; }
                 if (cp.first >= A.size() || cp.second >= X0[cp.first].size()) { c.viol("c07.coupling_out_of_range", "a coupling refers to a non-existent cell or node"); continue; }
-                R d = (X0[k][ni] - X0[cp.first][cp.second]).norm(); if (!(d < t.P.contact_cutoff_adhesion_ * (1 + 1e-9))) c.viol("c07.coupling_beyond_adhesion_cutoff", "two nodes were coupled although they are " + std::to_string((double)(d / t.P.contact_cutoff_adhesion_)) + " adhesion cut-offs apart");
+                R d = (X0[k][ni] - X0[cp.first][cp.second]).norm(); if (!(d < t.P.contact_cutoff_adhesion_ * (1 + GZ))) c.viol("c07.coupling_beyond_adhesion_cutoff", "two nodes were coupled although they are " + std::to_string((double)(d / t.P.contact_cutoff_adhesion_)) + " adhesion cut-offs apart");
                 if (t.cls[k] != 0 || t.cls[cp.first] != 0) c.viol("c07.coupling_of_non_epithelial_cells", "a coupling was created between cells that are not both epithelial"); } } }
 #endif
     // ---- C06-B: same rules on all pairs, single threaded, no acceleration structure ------------------------------------------------------------
@@ -194,13 +205,31 @@ static std::string tissue_case(const Args& a, long i) {
                 for (auto& kv : cell_tester::coupled_map(nl[ni])) cps.push_back({kv.first, kv.second.first});
 #endif
                 for (auto& cp : cps) { phase2_couplings++; R d = (cp.first < A.size() && cp.second < X1[cp.first].size()) ? (X1[k][ni] - X1[cp.first][cp.second]).norm() : (R)INFINITY;
-                    if (!(d < t.P.contact_cutoff_adhesion_ * (1 + 1e-9))) c.viol("c07.coupling_beyond_adhesion_cutoff:after_cells_moved_apart", "after the cells were moved apart a node is still coupled to a node " + std::to_string((double)(d / t.P.contact_cutoff_adhesion_)) + " adhesion cut-offs away");
+                    if (!(d < t.P.contact_cutoff_adhesion_ * (1 + GZ))) c.viol("c07.coupling_beyond_adhesion_cutoff:after_cells_moved_apart", "after the cells were moved apart a node is still coupled to a node " + std::to_string((double)(d / t.P.contact_cutoff_adhesion_)) + " adhesion cut-offs away");
                     if (!(vpos(nl[ni]) - X1[k][ni]).norm() == 0 && d > t.P.contact_cutoff_adhesion_) c.viol("c07.node_displaced_by_stale_coupling", "a node was moved by a coupling to a node beyond the cut-off"); } } }
     }
 #endif
+    // ---- the solver keeps ONE model object and calls run() at every iteration: evaluate a second tissue with the SAME object (the first tissue
+    //      turned by a cyclic permutation of the axes and shifted: other per-axis voxel counts with the same total)
+    long reuse_within = 0; bool did_reuse = false;
+    if (c.v != "viol" && a.geti("reuse", 1) != 0) { did_reuse = true;
+        Tissue t2 = t; const int perm = g.range(1, 2); const double sh[3] = {g.uni(-2, 2), g.uni(-2, 2), g.uni(-2, 2)};
+        for (auto& m : t2.meshes) for (auto& p : m.P) { std::array<double, 3> q = p; for (int d = 0; d < 3; d++) p[d] = q[(d + perm) % 3] + sh[d]; }
+        std::vector<cell_ptr> A2;
+        try { A2 = build(t2); } catch (const std::exception&) { did_reuse = false; }
+        if (did_reuse) {
+            std::vector<std::vector<V3>> X2(A2.size()); for (size_t k = 0; k < A2.size(); k++) for (const node& n : cell_tester::nodes(*A2[k])) X2[k].push_back(vpos(n));
+            for (auto& v : g_pairs) v.clear(); verif::get().contact_pair = on_pair; omp_set_num_threads(a.threads); model.run(A2); verif::get().contact_pair = nullptr;
+            std::map<const cell*, uint32_t> cidx2; for (size_t k = 0; k < A2.size(); k++) cidx2[A2[k].get()] = (uint32_t)k;
+            std::unordered_set<PairKey, PairHash> P2;
+            for (auto& v : g_pairs) for (auto& p : v) { const cell* c1 = (const cell*)p[0]; const cell* c2 = (const cell*)p[2]; const node* n = (const node*)p[1]; const face* f = (const face*)p[3]; P2.insert({cidx2[c1], n->get_local_id(), cidx2[c2], f->get_local_id()}); }
+            Brute b2 = brute(A2, X2, P2, t2, cmax, GZ); reuse_within = b2.within;
+            if (b2.missing) c.viol("c06.pair_within_cutoff_not_presented:model_object_reused", b2.msg + " (" + std::to_string(b2.missing) + " such pairs) in the second evaluation made with the same contact model object on a re-oriented tissue");
+        }
+    }
     c.nontrivial = within > 0; c.sig = hash_combine(hash_combine((uint64_t)within, (uint64_t)presented), hash_combine((uint64_t)forced, hash_double((double)sabs)));
     c.obs.s("family", t.family).i("cells", (long)A.size()).i("pairs_within_cutoff", within).i("pairs_gated_out", gated_out).i("pairs_presented", (long)presented).i("nodes_with_force", forced).i("couplings", couplings).b("all_pairs_comparison", didB).d("all_pairs_maxdiff_over_fmax", fmax > 0 ? (double)(maxdiff / fmax) : 0.0)
-        .i("repeats", repeats_done).b("second_phase", did_phase2).i("second_phase_couplings", phase2_couplings).d("net_over_sumabs", sabs > 0 ? (double)(sum.norm() / sabs) : 0.0).d("lmin", t.P.min_edge_len_).d("cutoff_adh", t.P.contact_cutoff_adhesion_).d("cutoff_rep", t.P.contact_cutoff_repulsion_).d("offset", t.offset).b("epi_epi", t.has_epi_epi).i("threads", a.threads);
+        .i("repeats", repeats_done).b("model_reused", did_reuse).i("reuse_pairs_within_cutoff", reuse_within).b("second_phase", did_phase2).i("second_phase_couplings", phase2_couplings).d("net_over_sumabs", sabs > 0 ? (double)(sum.norm() / sabs) : 0.0).d("lmin", t.P.min_edge_len_).d("cutoff_adh", t.P.contact_cutoff_adhesion_).d("cutoff_rep", t.P.contact_cutoff_repulsion_).d("offset", t.offset).b("epi_epi", t.has_epi_epi).i("threads", a.threads);
     return c.line();
 }
 
